@@ -25,13 +25,24 @@ end module drv_hook
 
 program drv_f
   use iso_c_binding
+#ifdef SIMC
+  use simc_mod
+#else
   use simlib_mod
+#endif
   use drv_hook
   implicit none
   integer, parameter :: NH = 8, NC = 4
+#ifndef SIMC
   type(item) :: h(0:NH-1)
   type(box) :: bx(0:NH-1)
+#else
+  type(pair) :: pr
+  type(pair), pointer :: prp
+#endif
+#ifndef SIMC
   type(SIM_SHROUD_capsule) :: caps(0:NC-1)
+#endif
   integer(C_INT), pointer :: ip(:)
   character(len=256) :: fname, line, text
   character(len=24) :: op
@@ -93,6 +104,7 @@ contains
     write(6, '(A,I0,A,I0,A,I0)') "RES ", k, " ", n, " ", sm
   end subroutine res_arr
 
+#ifndef SIMC
   subroutine scoped_capsule(n)
     ! a capsule that is a local variable: finalised at scope exit
     integer, intent(in) :: n
@@ -108,64 +120,113 @@ contains
     call res_arr(sz, sm)
     call sim_phase(1)   ! the finaliser that runs at "end subroutine" is wrapper code
   end subroutine scoped_capsule
+#endif
 
   subroutine do_op()
     integer :: i, sz, sm, cap
     character(len=:), allocatable :: buf
     character(len=:), allocatable :: names(:)
     select case (trim(op))
+#ifndef SIMC
     case ("item_default")
        call sim_phase(1); h(a) = item(); call sim_phase(0); call res_none()
+#endif
+#ifndef SIMC
     case ("item_val")
        call sim_phase(1); h(a) = item(int(b, C_INT)); call sim_phase(0); call res_none()
+#endif
+#ifndef SIMC
     case ("item_delete")
        call sim_phase(1); call h(a)%delete(); call sim_phase(0); call res_none()
+#endif
+#ifndef SIMC
     case ("item_value")
        call sim_phase(1); r = h(a)%value(); call sim_phase(0); call res_int(int(r))
+#endif
+#ifndef SIMC
     case ("item_set")
        call sim_phase(1); call h(a)%set(int(b, C_INT)); call sim_phase(0); call res_none()
+#endif
+#ifndef SIMC
     case ("item_label")
        call sim_phase(1); s = h(a)%label(); call sim_phase(0); call res_str(s); deallocate(s)
+#endif
+#ifndef SIMC
     case ("item_twin")
        call sim_phase(1); h(b) = h(a)%twin(); call sim_phase(0); call res_none()
+#endif
+#ifndef SIMC
     case ("make_item")
        call sim_phase(1); h(a) = make_item(int(b, C_INT)); call sim_phase(0); call res_none()
+#endif
+#ifndef SIMC
     case ("borrow_item")
        call sim_phase(1); h(a) = borrow_item(); call sim_phase(0); call res_none()
+#endif
+#ifndef SIMC
     case ("default_item")
        call sim_phase(1); h(a) = default_item(); call sim_phase(0); call res_none()
+#endif
+#ifndef SIMC
     case ("copy_item")
        call sim_phase(1); h(a) = copy_item(int(b, C_INT)); call sim_phase(0); call res_none()
+#endif
+#ifndef SIMC
     case ("use_item")
        call sim_phase(1); r = use_item(h(a)); call sim_phase(0); call res_int(int(r))
+#endif
+#ifndef SIMC
     case ("sum_items")
        call sim_phase(1); r = sum_items(h(a), h(b)); call sim_phase(0); call res_int(int(r))
+#endif
+#ifndef SIMC
     case ("assign")
        h(b) = h(a); call res_none()
+#endif
+#ifndef SIMC
     case ("make_box")
        call sim_phase(1); bx(a) = make_box(int(b, C_INT)); call sim_phase(0); call res_none()
+#endif
+#ifndef SIMC
     case ("box_new")
        call sim_phase(1); bx(a) = box(int(b, C_INT)); call sim_phase(0); call res_none()
+#endif
+#ifndef SIMC
     case ("box_value")
        call sim_phase(1); r = bx(a)%value(); call sim_phase(0); call res_int(int(r))
+#endif
+#ifndef SIMC
     case ("str_ref")
        call sim_phase(1); s = str_ref(); call sim_phase(0); call res_str(s); deallocate(s)
+#endif
+#ifndef SIMC
     case ("str_val")
        call sim_phase(1); s = str_val(int(a, C_INT)); call sim_phase(0); call res_str(s); deallocate(s)
+#endif
+#ifndef SIMC
     case ("str_owned")
        call sim_phase(1); s = str_owned(int(a, C_INT)); call sim_phase(0); call res_str(s); deallocate(s)
+#endif
+#ifndef SIMC
     case ("str_lib")
        call sim_phase(1); s = str_lib(); call sim_phase(0); call res_str(s); deallocate(s)
+#endif
+#ifndef SIMC
     case ("str_in")
        ! a = length of the actual argument (may exceed the text: trailing blanks)
        allocate(character(len=a) :: buf); buf = text(1:min(a, len(text)))
        call sim_phase(1); r = str_in(buf); call sim_phase(0); call res_int(int(r)); deallocate(buf)
+#endif
+#ifndef SIMC
     case ("str_out")
        allocate(character(len=a) :: buf); buf = repeat("#", a)
        call sim_phase(1); call str_out(buf, int(b, C_INT)); call sim_phase(0); call res_str(buf); deallocate(buf)
+#endif
+#ifndef SIMC
     case ("str_inout")
        allocate(character(len=a) :: buf); buf = text(1:min(a, len(text)))
        call sim_phase(1); call str_inout(buf); call sim_phase(0); call res_str(buf); deallocate(buf)
+#endif
     case ("char_out")
        allocate(character(len=a) :: buf); buf = repeat("#", a)
        call sim_phase(1); call char_out(buf, trim(text)); call sim_phase(0); call res_str(buf); deallocate(buf)
@@ -174,49 +235,67 @@ contains
     case ("char_inout")
        allocate(character(len=a) :: buf); buf = text(1:min(a, len(text)))
        call sim_phase(1); call char_inout(buf); call sim_phase(0); call res_str(buf); deallocate(buf)
+#ifndef SIMC
     case ("vec_sum")
        allocate(iv(a)); do i = 1, a; iv(i) = i; end do
        call sim_phase(1); r = vec_sum(iv); call sim_phase(0); call res_int(int(r)); deallocate(iv)
+#endif
+#ifndef SIMC
     case ("vec_iota")
        allocate(iv(a)); iv = -7
        call sim_phase(1); call vec_iota(iv); call sim_phase(0)
        sm = 0; if (a > 0) sm = sum(iv)
        call res_arr(size(iv), sm); deallocate(iv)
+#endif
+#ifndef SIMC
     case ("vec_inc")
        allocate(iv(a)); do i = 1, a; iv(i) = 10 * i; end do
        call sim_phase(1); call vec_inc(iv); call sim_phase(0)
        sm = 0; if (a > 0) sm = sum(iv)
        call res_arr(size(iv), sm); deallocate(iv)
+#endif
+#ifndef SIMC
     case ("vec_alloc")
        call sim_phase(1); call vec_alloc(iv, int(a, C_INT)); call sim_phase(0)
        sm = 0; if (size(iv) > 0) sm = sum(iv)
        call res_arr(size(iv), sm); deallocate(iv)
+#endif
+#ifndef SIMC
     case ("vec_ret")
        call sim_phase(1); iv = vec_ret(int(a, C_INT)); call sim_phase(0)
        sm = 0; if (size(iv) > 0) sm = sum(iv)
        call res_arr(size(iv), sm); deallocate(iv)
+#endif
+#ifndef SIMC
     case ("vec_str_count")
        allocate(character(len=b) :: names(a))
        do i = 1, a
           names(i) = repeat("q", mod(i, b + 1))
        end do
        call sim_phase(1); r = vec_str_count(names); call sim_phase(0); call res_int(int(r)); deallocate(names)
+#endif
+#ifndef SIMC
     case ("arr_new")
        call sim_phase(1); ip => arr_new(int(a, C_INT), caps(b)); call sim_phase(0)
        sz = size(ip); sm = 0; if (sz > 0) sm = sum(ip)
        call res_arr(sz, sm); nullify(ip)
+#endif
     case ("arr_lib")
        call sim_phase(1); ip => arr_lib(); call sim_phase(0)
        sz = size(ip); sm = 0; if (sz > 0) sm = sum(ip)
        call res_arr(sz, sm); nullify(ip)
+#ifndef SIMC
     case ("arr_new_alloc")
        call sim_phase(1); dv = arr_new_alloc(int(a, C_INT)); call sim_phase(0)
        sz = size(dv); sm = 0; if (sz > 0) sm = int(sum(dv) * 2)
        call res_arr(sz, sm); deallocate(dv)
+#endif
+#ifndef SIMC
     case ("arr_pat")
        call sim_phase(1); ip => arr_new_pat(int(a, C_INT), caps(b)); call sim_phase(0)
        sz = size(ip); sm = 0; if (sz > 0) sm = sum(ip)
        call res_arr(sz, sm); nullify(ip)
+#endif
     case ("arr_sum")
        allocate(iv(a)); do i = 1, a; iv(i) = 3 * i; end do
        call sim_phase(1); r = arr_sum(iv); call sim_phase(0); call res_int(int(r)); deallocate(iv)
@@ -229,16 +308,40 @@ contains
           names(i) = repeat("w", mod(i, b + 1))
        end do
        call sim_phase(1); r = char_arr_len(names, int(a, C_INT)); call sim_phase(0); call res_int(int(r)); deallocate(names)
+#ifndef SIMC
     case ("ref_item")
        call sim_phase(1); h(a) = ref_item(); call sim_phase(0); call res_none()
+#endif
+#ifndef SIMC
     case ("vec_ret_d")
        call sim_phase(1); dv = vec_ret_d(int(a, C_INT)); call sim_phase(0)
        sz = size(dv); sm = 0; if (sz > 0) sm = int(sum(dv) * 4)
        call res_arr(sz, sm); deallocate(dv)
+#endif
+#ifndef SIMC
     case ("cap_delete")
        call sim_phase(1); call caps(a)%delete(); call sim_phase(0); call res_none()
+#endif
+#ifndef SIMC
     case ("cap_scope")
        call scoped_capsule(a); call sim_phase(0)
+#endif
+#ifdef SIMC
+    case ("pair_sum")
+       pr%ifield = int(a, C_INT); pr%dfield = real(b, C_DOUBLE)
+       call sim_phase(1); r = pair_sum(pr); call sim_phase(0); call res_int(int(r))
+    case ("pair_ptr")
+       pr%ifield = int(a, C_INT); pr%dfield = real(b, C_DOUBLE)
+       call sim_phase(1); r = pair_ptr(pr); call sim_phase(0); call res_int(int(r))
+    case ("pair_out")
+       call sim_phase(1); call pair_out(pr); call sim_phase(0); call res_arr(int(pr%ifield), int(pr%dfield * 2))
+    case ("pair_ret")
+       call sim_phase(1); pr = pair_ret(int(a, C_INT), real(b, C_DOUBLE)); call sim_phase(0)
+       call res_arr(int(pr%ifield), int(pr%dfield * 2))
+    case ("pair_ret_ptr")
+       call sim_phase(1); prp => pair_ret_ptr(int(a, C_INT), real(b, C_DOUBLE)); call sim_phase(0)
+       call res_arr(int(prp%ifield), int(prp%dfield * 2))
+#endif
     case default
        write(6, '(A,I0,A,A)') "RES ", k, " UNKNOWN-OP ", trim(op)
     end select
